@@ -351,7 +351,8 @@ class PfWorld:
         if mode == 'layout':
             pp['RUN_LAYOUT_PARSER'] = 'yes'
             pp['RUN_LINE_CROPPER'] = 'yes' if 'lines' in plan['outputs'] else 'no'
-            extra['LAYOUT_PARSER_1'] = {'METHOD': 'REGION_WHOLE_PAGE'}
+            if not plan.get('regions_from_xml'):
+                extra['LAYOUT_PARSER_1'] = {'METHOD': 'REGION_WHOLE_PAGE'}
             extra['LAYOUT_PARSER_2'] = {'METHOD': 'LINES_SIMPLE_THRESHOLD', 'ADAPTIVE_THRESHOLD': '21', 'BLOCK_SIZE': '51',
                                         'MINIMUM_LENGTH': '10', 'IGNORED_BORDER_PIXELS': '4'}
             extra['LINE_CROPPER'] = {'INTERP': str(cfg.get('interp', 2)), 'LINE_SCALE': '1', 'LINE_HEIGHT': str(stubocr.LINE_HEIGHT)}
@@ -382,7 +383,16 @@ class PfWorld:
                 if p.get('no_xml'):
                     continue            # with --skipp-missing-xml such a page is not an input page
                 with open(os.path.join(self.in_xml, p['id'] + '.xml'), 'w') as f:
-                    f.write(stubocr.page_xml(self.img_spec(p), p['id']))
+                    f.write(stubocr.page_xml(self.img_spec(p), p['id'], style=p.get('xml_style', 'pero')))
+        if mode == 'layout' and plan.get('regions_from_xml'):
+            # regions come from input PAGE XML (arbitrary polygons); the simple line detector fills them
+            self.in_xml = os.path.join(self.root, 'in_xml')
+            os.makedirs(self.in_xml)
+            for p in plan['pages']:
+                spec = dict(self.img_spec(p), region_poly=p.get('region_poly', 'rect'))
+                img = stubocr.paint_text_page(spec)
+                with open(os.path.join(self.in_xml, p['id'] + '.xml'), 'w') as f:
+                    f.write(stubocr.page_xml(spec, p['id'], regions_only=True, size=img.shape[:2]))
         if mode == 'decode':
             self.in_xml = os.path.join(self.root, 'in_xml')
             self.in_logits = os.path.join(self.root, 'in_logits')
